@@ -116,6 +116,64 @@ def slew_check(case):
     return Res(v, o=(pi, bool(exp.any())), tr=1)
 
 
+# ------------------------------------------------------------------ both rules at the same sample, on different channels
+def both_cases(tier, seed):
+    return [(nc, pi) for nc in (5, 10, 20, 40, 100, 385) for pi in range(len(PROPS))]
+
+
+def ref_flags(data, V, lim, p):
+    """the rule of the property, sample by sample, with exact fractions; steps must not sit on the slew limit"""
+    nc, ns = data.shape
+    thr = V * 0.98
+    out = []
+    for t in range(ns):
+        ka = int(np.sum(np.abs(data[:, t]) > thr))
+        ks = 0
+        if t + 1 < ns:
+            st = np.abs(data[:, t + 1] - data[:, t])
+            assert not np.any(np.abs(st / lim - 1) < 1e-9)
+            ks = int(np.sum(st > lim))
+        out.append(Fraction(ka, nc) > _frac(p) or Fraction(ks, nc) > _frac(p))
+    return np.array(out)
+
+
+def both_check(case):
+    nc, pi = case
+    p = PROPS[pi]
+    rng = np.random.default_rng(nc + pi)
+    vps = 1e-8
+    lim = vps * FS
+    V = 3 * lim                         # full scale a few slew limits high: it is reached in a handful of sub-limit steps
+    v = []
+    blocks, what = [], []
+    ks = sorted({0, 1, int(p * nc), int(p * nc) + 1, nc // 2, nc - int(p * nc) - 1})
+    for ka in ks:
+        for kslew in ks:
+            if ka + kslew > nc or ka < 0 or kslew < 0:
+                continue
+            perm = rng.permutation(nc)
+            ca, cs = perm[:ka], perm[ka:ka + kslew]
+            a = np.zeros(nc)
+            a[ca] = 0.99 * V * np.where(rng.random(ka) < 0.5, -1, 1)          # over 98 % of range, reached slowly: no slew on these channels
+            b = a.copy()
+            b[cs] += lim * (1 + 1e-6) * np.where(rng.random(kslew) < 0.5, -1, 1)   # OTHER channels jump over the slew limit, staying far below the range
+            ramp = [a * f for f in np.linspace(0, 1, 8)]
+            down = [b * f for f in np.linspace(1, 0, 10)]
+            seq = ramp + [b, b] + down[1:]
+            blocks.append(np.stack(seq, axis=1))
+            what += [(ka, kslew, t - (len(ramp) - 1)) for t in range(len(seq))]
+    data = np.concatenate(blocks, axis=1)
+    sat, mute = voltage.saturation(data.copy(), max_voltage=V, v_per_sec=vps, fs=FS, proportion=p, mute_window_samples=1)
+    sat = np.asarray(sat).astype(bool)
+    exp = ref_flags(data, V, lim, p)
+    bad = np.flatnonzero(sat != exp)
+    if bad.size:
+        ka, kslew, rel = what[bad[0]]
+        v.append(("both-rules", "nc=%d proportion=%r: block with %d channels over 98%% of range and %d OTHER channels over the slew limit (sample offset %d from the step): "
+                  "flagged=%s, expected %s (each rule is compared with the proportion on its own)" % (nc, p, ka, kslew, rel, sat[bad[0]], exp[bad[0]])))
+    return Res(v, o=(pi, bool(exp.any())), tr=1)
+
+
 # ------------------------------------------------------------------ mute gain on every flag pattern
 WIDTHS = [1, 3, 5, 7, 9, 11, 31, 2, 4, 8]
 
@@ -243,6 +301,7 @@ CHECK = {
     "clauses": [
         Clause("amplitude", "every (nc, k over threshold) x boundary placement x proportion x scalar/per-channel range", cases=amp_cases, check=amp_check),
         Clause("slew", "every (nc, k over slew limit) x below/above x proportion", cases=slew_cases, check=slew_check),
+        Clause("both-rules", "amplitude rule and slew rule met by different channels at the same sample", cases=both_cases, check=both_check),
         Clause("mute", "all flag patterns of length <= 12 x taper widths, four data realisations each", cases=mute_cases, check=mute_check),
         Clause("range", "Reader.range_volts = full-scale / gain for every probe kind", cases=range_cases, check=range_check),
     ],
